@@ -485,7 +485,11 @@ def lone_class_cases(ctx, rng, n):
             wrapped = ['seq', [sub, ['map', [[N_s('zunrelated_a_id'),
                                                ['s', S_INT, '1']]],
                                      '!ZUnrelatedA']], S_SEQ]
-            node = inner[:1] + [inner[1] + [[N_s('zz_extra_key'), wrapped]]] \
+            # (under an ordinary key, and under keys named like parts of
+            # the constructor's signature, which are extras like any other)
+            xkey = rng.choice(['zz_extra_key', 'zz_extra_key', 'self',
+                               '_yatiml_extra', 'cls', 'kwargs'])
+            node = inner[:1] + [inner[1] + [[N_s(xkey), wrapped]]] \
                 + inner[2:]
             run_case(ctx, lone, node, rng.choice(['block', 'flow']),
                      rng.getrandbits(32), only='extra_classes')
